@@ -358,6 +358,7 @@ func (e *consEnv) run(cs *caseT) *outcome {
 	case peerGone:
 		c.ConR.RemovePeer(p, "gone")
 	}
+	digPre := consensus.VerifC18PeerDigest(psOf(p))
 	for i, pre := range cs.pre {
 		c.ConR.Receive(cs.preCh[i], p, pre)
 		e.drain(c, out)
@@ -464,7 +465,8 @@ func (e *consEnv) run(cs *caseT) *outcome {
 		}
 	}
 	// gossip on peer-controlled state (only when something the routines read has changed)
-	if !failed && cs.Peer != peerGone && (dig1 != dig0 || key1 != key0) && psOf(p) != nil {
+	// (with preceding deliveries: also when those changed what the routines read)
+	if !failed && cs.Peer != peerGone && (dig1 != dig0 || key1 != key0 || (len(cs.pre) > 0 && dig1 != digPre)) && psOf(p) != nil {
 		a1 := allocBytes()
 		e.gossip(c, p, psOf(p), out, "after the delivery")
 		if d := allocBytes() - a1; d > allocLimit(consCap, sentBytes) {
